@@ -22,7 +22,8 @@ EXTRACT = "extract/ExC19.v"
 OBLIGATION = "from_possibly_duplicated_entries"
 THEOREMS = ["C19_precedence_table", "C19_precedence_order", "C19_flag", "C19_unchanged", "C19_succeeds", "C19_unique", "C19_preserved",
             "C19_winner", "C19_id", "C19_manifests_differ", "C19_check", "C19_id_kept",
-            "C19_succeeds_refuted_old", "C19_new_fixes_old_witnesses", "C19_satisfiable"]
+            "C19_succeeds_refuted_old", "C19_new_fixes_old_witnesses", "C19_satisfiable",
+            "C19_check_is_C07_check", "C19_repaired_passes_C07_check", "C19_constructor_is_C07s"]
 RULE = ("entry sequences of length 0-12 over <= 3 base names with multiplicities up to 5, all file/dir/rev mixes, "
         "equal (name,type,target) triples, equal targets under one name, targets sharing their first 5 bytes (equal "
         "10-hex prefix), targets shorter than 5 bytes, extra entries whose name IS another entry's would-be "
